@@ -25,6 +25,11 @@ Cfgs ==
                             {C("sum", Lin, TRUE, None, 8, "flux"), C("sum", <<1, 2>>, TRUE, None, 8, "flux"),
                              C("sum", Lin, FALSE, None, 8, "flux"), C("avg", Lin, TRUE, None, 8, "flux")}
     [] CfgSet = "integgrid" -> {C("avg", Lin, TRUE, None, 16, "grid"), C("sum", <<0, 1>>, TRUE, None, 16, "grid")}
+    \* two cells; the second one is missing (masked) in every publication whose index is 2 modulo 3
+    [] CfgSet = "integhole" -> {C("avg", Lin, TRUE, None, 16, "hole"), C("sum", <<0, 1>>, TRUE, None, 16, "hole"),
+                                C("sum", Lin, FALSE, None, 16, "hole"), C("avg", <<1, 2>>, TRUE, None, 16, "hole")}
+    [] CfgSet = "interphole" -> {C(k, Lin, FALSE, None, 16, "hole") : k \in {"next", "prev", "linear"}} \cup
+                                {C("step", <<1, 2>>, FALSE, None, 16, "hole")}
     [] CfgSet = "stack"  -> {C("stack", Lin, FALSE, l, 16, "grid") : l \in {None, 16}}     \* (StackTime refuses NoGrid data with several time entries)
     [] CfgSet = "spill"  -> {C(k, sg, TRUE, l, 8, "scalar") :
                                k \in {"next", "prev", "linear", "step", "avg", "sum"}, sg \in {<<1, 2>>}, l \in {0, 8, 20}}
